@@ -227,3 +227,63 @@ Proof.
     rewrite get_dset_other by exact Hrg. rewrite Hrest by exact Hk. rewrite G, (get_In k e w ND HI). cbn [option_map].
     unfold wv. rewrite Hph, (fqSafe_fixed e (letters_safe e Hl)), Hd'. reflexivity.
 Qed.
+
+(* ------------------------------------------------------------------ QueryNameFlagger.digest keeps no state *)
+Definition standalone (q : str) : outcome :=
+  match digest_read q with Ok (n, t) => Tagged n t | Raise _ => Failed end.
+
+Lemma digest_cons_some : forall q r,
+  digest (Some (q, false) :: r) =
+  match digest_read q with
+  | Raise e => (Failed :: map (fun _ => Untouched) r, Some e)
+  | Ok (n, t) => let '(o, e) := digest r in (Tagged n t :: o, e)
+  end.
+Proof. reflexivity. Qed.
+
+(* a list of fresh reads that all decode: the result is the single-read digest of each, in order *)
+Lemma digest_stateless : forall qs, (forall q, In q qs -> exists x, digest_read q = Ok x) ->
+  digest (map (fun q => Some (q, false)) qs) = (map standalone qs, None).
+Proof.
+  induction qs as [|q qs IH]; intro H; [reflexivity|]. cbn [map]. rewrite digest_cons_some.
+  destruct (H q (or_introl eq_refl)) as [[n t] E]. unfold standalone at 1. rewrite E.
+  rewrite IH by (intros q' HI; apply H; right; exact HI). reflexivity.
+Qed.
+
+Definition tagged_alone (r : option (str * bool)) (x : outcome) : Prop :=
+  match x with
+  | Tagged n t => exists q sm, r = Some (q, sm) /\ digest_read q = Ok (n, t)
+  | _ => True
+  end.
+
+Lemma untouched_all : forall l : list (option (str * bool)), Forall2 tagged_alone l (map (fun _ => Untouched) l).
+Proof. induction l as [|a l IH]; cbn [map]; constructor; [exact I|exact IH]. Qed.
+
+(* whatever came before (None entries, tagged or failing reads): a read that ends up tagged carries exactly
+   the name and tags of its own single-read digest *)
+Lemma digest_pointwise : forall reads o e, digest reads = (o, e) -> Forall2 tagged_alone reads o.
+Proof.
+  induction reads as [|r reads IH]; intros o e H.
+  - cbn in H. inversion H. constructor.
+  - destruct r as [[q sm]|].
+    + destruct sm.
+      * cbn [digest] in H. inversion H; subst. apply (untouched_all (Some (q, true) :: reads)).
+      * rewrite digest_cons_some in H. destruct (digest_read q) as [[n t]|x] eqn:E.
+        -- destruct (digest reads) as [o' e'] eqn:D. inversion H; subst. constructor.
+           ++ exists q, false. split; [reflexivity|exact E].
+           ++ apply (IH o' e). reflexivity.
+        -- inversion H; subst. constructor; [exact I|apply untouched_all].
+    + cbn [digest] in H. destruct (digest reads) as [o' e'] eqn:D. inversion H; subst. constructor; [exact I|].
+      apply (IH o' e). reflexivity.
+Qed.
+
+(* consecutive calls on the same flagger = one call on the concatenation, when the first call ran through *)
+Lemma digest_app : forall qs rest,
+  (forall q, In q qs -> exists x, digest_read q = Ok x) ->
+  digest (map (fun q => Some (q, false)) qs ++ rest) =
+  (map standalone qs ++ fst (digest rest), snd (digest rest)).
+Proof.
+  induction qs as [|q qs IH]; intros rest H.
+  - cbn [map app]. destruct (digest rest); reflexivity.
+  - cbn [map app]. rewrite digest_cons_some. destruct (H q (or_introl eq_refl)) as [[n t] E]. unfold standalone at 1. rewrite E.
+    rewrite IH by (intros q' HI; apply H; right; exact HI). reflexivity.
+Qed.
